@@ -19,6 +19,11 @@ const (
 	// rollbackStatusTo (load) overwrites only the proposed entries the replayed window yields; entries of other producers keep
 	// pre-LIBs (and confirming blocks) of the abandoned branch, and calcLIB can select one: the LIB is then not on the main chain.
 	classStaleEntry = "C08-lib-from-stale-entry-of-abandoned-branch"
+	// a producer vetoes reorganisations only below its own LIB, not below blocks it has confirmed: of the quorum whose pre-LIBs
+	// make x irreversible only the last member knows it, the others may still adopt a longer branch forking below x. Two correct
+	// nodes then hold LIBs on conflicting branches with NO misbehaving producer. Tagged ONLY in the scripted history A6 (both
+	// nodes untainted, every block honest); a conflict found by the random schedules or the exploration stays untagged.
+	classHonestSwitch = "C08-conflicting-libs-honest-switch-below-confirmed"
 )
 
 var classSeen = map[string]int{}
@@ -148,6 +153,12 @@ func nameAt(main []*sblk, no uint64) string {
 
 // agreement: the highest LIBs two correct nodes ever reported lie on one branch.
 func agreement(w *world, nodes []*node, replay func() interface{}) {
+	agreementWith(w, nodes, replay, "")
+}
+
+// agreementWith: untainted = the class of a conflict between two nodes neither of which carries a tagged event ("" everywhere
+// except in the scripted history A6).
+func agreementWith(w *world, nodes []*node, replay func() interface{}, untainted string) {
 	for i := 0; i < len(nodes); i++ {
 		for j := i + 1; j < len(nodes); j++ {
 			a, b := nodes[i].maxLib.b, nodes[j].maxLib.b
@@ -160,6 +171,9 @@ func agreement(w *world, nodes []*node, replay func() interface{}) {
 				class := nodes[i].taint
 				if class == "" {
 					class = nodes[j].taint
+				}
+				if class == "" {
+					class = untainted
 				}
 				w.run.Count("fail-class=agreement/" + class)
 				if class != "" {
